@@ -284,6 +284,149 @@ void h_heap_destroy(void) {
 }
 #endif
 
+#ifdef HARNESS_h_visit_areas
+/* C12: the heap walk reaches every page of the heap exactly once -- in the size queues and in the full queue -- and no page of another
+   heap; a visitor returning false stops it.  (Blocks inside one area: C12.visit in page_layer.c; that the queues stay well formed
+   under migration: heap_absorb.) */
+static size_t seen_mask; static int n_areas, n_dup, n_foreign, stop_after;
+static uint8_t VAREAS[NP + 2][4 * QBS];
+static bool area_visitor(const mi_heap_t* heap, const mi_heap_area_t* area, void* block, size_t block_size, void* arg) {
+  CHECK(block == NULL && heap == &A && block_size == QBS, "area call-back: no block, this heap, the area's block size");
+  int k = -1; for (int i = 0; i < NP; i++) if (area->blocks == (void*)VAREAS[i]) k = i;
+  if (k < 0) n_foreign++; else { if (seen_mask & ((size_t)1 << k)) n_dup++; seen_mask |= (size_t)1 << k; CHECK(area->used == PA[k].used, "per area the used count of its page"); }
+  n_areas++;
+  return (n_areas != stop_after);
+}
+void h_visit_areas(void) {
+  make_heaps();
+  for (int i = 0; i < NP; i++) { PA[i].page_start = VAREAS[i]; PA[i].used = (uint16_t)(nd_u8() % 5); }
+  for (int i = 0; i < 2; i++) PB[i].page_start = VAREAS[NP + i];
+  stop_after = nd_u8() % (NP + 2);          /* 0: never stop */
+  bool r = mi_heap_visit_blocks(&A, false, &area_visitor, NULL);
+  CHECK(n_dup == 0 && n_foreign == 0, "C12: no page is reported twice and no page of another heap is reported");
+  if (stop_after == 0 || stop_after > NP) { CHECK(r && seen_mask == (((size_t)1 << NP) - 1) && n_areas == NP, "C12: every page of the heap is reported once (size queue and full queue)"); WITNESS("complete"); }
+  else { CHECK(!r && n_areas == stop_after, "C12: returning false from the visitor stops the walk"); WITNESS("stopped"); }
+}
+#endif
+
+#ifdef HARNESS_h_fresh_alloc
+/* C03/C01: a fresh page as the heap layer sets it up (mi_large_huge_page_alloc / mi_page_fresh -> mi_page_fresh_alloc -> mi_page_init) on top
+   of what the segment layer hands over (stub with the contract decided by C01.segment_alloc_full / C03.huge_geometry / C16.page_start):
+   the blocks of the page are at least as large as requested, lie inside the page area, and a huge or over-aligned page consists of ONE
+   block that covers the whole page area -- so that an aligned pointer far into the area still belongs to that block and its
+   usable size covers the request. */
+static mi_page_t NEWP; static mi_segment_t FSEG; static uint8_t FAREA[64];
+static size_t seg_req_bs, seg_req_align, PSZ; static int n_seg_alloc, n_extend2;
+mi_page_t* _mi_segment_page_alloc(mi_heap_t* heap, size_t block_size, size_t page_alignment, mi_segments_tld_t* tld) {
+  n_seg_alloc++; seg_req_bs = block_size; seg_req_align = page_alignment;
+  if (nd_bool()) return NULL;
+  bool huge = (page_alignment > MI_BLOCK_ALIGNMENT_MAX || block_size > MI_LARGE_OBJ_SIZE_MAX);
+  PSZ = nd_size();                                                   /* size of the page area */
+  if (huge) { ASSUME(PSZ >= block_size + (page_alignment > 0 ? page_alignment / 2 : 0) && PSZ <= ((size_t)1 << (FRESH_BITS + 2))); NEWP.is_huge = 1; NEWP.block_size = PSZ; FSEG.kind = MI_SEGMENT_HUGE; }
+  else { ASSUME(PSZ >= block_size && PSZ <= MI_SEGMENT_SIZE && PSZ / block_size < 65536); NEWP.is_huge = 0; NEWP.block_size = PSZ + nd_u8(); FSEG.kind = MI_SEGMENT_NORMAL; }
+  NEWP.is_committed = 1; NEWP.is_zero_init = nd_bool();
+  return &NEWP; }
+uint8_t* _mi_segment_page_start(const mi_segment_t* segment, const mi_page_t* page, size_t* page_size) { if (page_size != NULL) *page_size = PSZ; return FAREA; }
+mi_segment_t* stub_ptr_segment_f(const void* p) { return &FSEG; }
+void _mi_stat_increase(mi_stat_count_t* stat, size_t amount) { }
+void _mi_stat_counter_increase(mi_stat_counter_t* stat, size_t amount) { }
+void stub_extend_free2(mi_heap_t* heap, mi_page_t* page, mi_tld_t* tld) { n_extend2++; CHECK(page->capacity < page->reserved, "room to extend"); page->capacity = 1; page->free = (mi_block_t*)FAREA; }
+#if FRESH_KIND == 2
+size_t _mi_os_good_alloc_size(size_t size) { return ((size + 65535) / 65536) * 65536; }       /* concrete rounding (C11.good_alloc_size decides the real one) */
+#else
+size_t _mi_os_good_alloc_size(size_t size) { size_t r = nd_size(); ASSUME(r >= size && r - size < ((size_t)4 << 20)); return r; }
+#endif
+void h_fresh_alloc(void) {
+  make_heaps();
+  size_t size = nd_size(); size_t align = 0; mi_page_t* pg;
+  size_t a0 = A.page_count;
+#if FRESH_KIND == 0            /* small/medium page of the heap's 64-byte class */
+  size = QBS; pg = mi_page_fresh(&A, &A.pages[BIN]);
+#else                          /* large / huge / over-aligned */
+  ASSUME(size > MI_MEDIUM_OBJ_SIZE_MAX && size <= ((size_t)1 << FRESH_BITS));        /* bounded: mi_page_init divides the (symbolic) area size by the (symbolic) block size */
+#if FRESH_KIND == 1            /* huge or over-aligned: the huge queue */
+  if (nd_bool()) { align = (size_t)1 << nd_range(25, FRESH_BITS); }
+  else ASSUME(size > MI_LARGE_OBJ_SIZE_MAX);
+#else                          /* large: concrete size (its queue index stays concrete), driver enumerates */
+  size = LSIZE;
+#endif
+  pg = mi_large_huge_page_alloc(&A, size, align);
+#endif
+  CHECK(n_seg_alloc == 1 && seg_req_bs >= size && seg_req_align == align, "the segment layer is asked for at least the requested size and the same alignment");
+  if (pg == NULL) { CHECK(A.page_count == a0, "nothing is queued on failure"); WITNESS("refused"); return; }
+  CHECK(pg == &NEWP && mi_page_heap(pg) == &A && A.page_count == a0 + 1, "the fresh page belongs to the allocating heap");
+  CHECK(pg->block_size >= size, "C01/C03: blocks of the fresh page are at least as large as the request");
+  CHECK(pg->reserved >= 1 && (size_t)pg->reserved * pg->block_size <= PSZ, "C01: all blocks of the page lie inside its area");
+  CHECK(pg->page_start == FAREA && pg->capacity <= pg->reserved && pg->used == 0, "page start and counts initialised");
+  if (NEWP.is_huge) {
+    CHECK(pg->block_size == PSZ && pg->reserved == 1, "C03: a huge or over-aligned page is a single block covering the whole page area (an aligned pointer deep inside still maps to it and its usable size covers the request)");
+    CHECK(in_queue(&A.pages[MI_BIN_HUGE], pg), "queued with the huge pages");
+#if FRESH_KIND == 1
+    WITNESS("huge");
+#endif
+  } else {
+#if FRESH_KIND == 0
+    CHECK(pg->block_size == QBS && A.pages[BIN].first == pg, "a page of the requested size class, at the front of its queue");
+#else
+    CHECK(in_queue(&A.pages[_mi_bin(pg->block_size)], pg), "queued by its block size");
+#endif
+#if FRESH_KIND != 1
+    WITNESS("regular");
+#endif
+  }
+}
+#endif
+
+#ifdef HARNESS_h_heap_collect
+/* C08/C09/C11: mi_heap_collect_ex (CMODE: 0 normal, 1 force, 2 abandon) with the real page visitor: every page whose blocks have all been
+   freed -- locally or by other threads (still parked on its thread-free list) -- is released exactly once, so a heap whose blocks were
+   all freed holds no page after the owner collects; pages with live blocks stay (normal/force) or are abandoned exactly once with
+   their heap link cleared (abandon) -- the dying heap keeps nothing.  Page states are enumerated (base-3 digits of PST: 0 all freed
+   locally, 1 live blocks, 2 all freed remotely and not yet collected). */
+static mi_block_t RB[NP];
+static uint8_t pst[NP];
+static size_t freed_mask2, aband_mask; static int n_seg_collect;
+void _mi_segment_page_free(mi_page_t* page, bool force, mi_segments_tld_t* tld) {
+  int k = -1; for (int i = 0; i < NP; i++) if (page == &PA[i]) k = i;
+  CHECK(k >= 0 && (freed_mask2 & ((size_t)1 << (k >= 0 ? k : 0))) == 0, "C08: a page is released at most once, and only a page of this heap");
+  CHECK(page->used == 0 && mi_page_heap(page) == NULL && page->next == NULL && page->prev == NULL, "a released page has no live block, no heap and no queue links");
+  if (k >= 0) freed_mask2 |= (size_t)1 << k; }
+void _mi_segment_page_abandon(mi_page_t* page, mi_segments_tld_t* tld) {
+  int k = -1; for (int i = 0; i < NP; i++) if (page == &PA[i]) k = i;
+  CHECK(k >= 0 && (aband_mask & ((size_t)1 << (k >= 0 ? k : 0))) == 0 && (freed_mask2 & ((size_t)1 << (k >= 0 ? k : 0))) == 0, "C09: a page is abandoned at most once and never after it was released");
+  CHECK(page->used > 0 && mi_page_heap(page) == NULL && mi_page_thread_free_flag(page) == MI_NEVER_DELAYED_FREE && page->next == NULL && page->prev == NULL, "C09: an abandoned page has live blocks, no heap, no queue links and takes no delayed frees");
+  if (k >= 0) aband_mask |= (size_t)1 << k; }
+void _mi_segment_collect(mi_segment_t* segment, bool force) { n_seg_collect++; }
+mi_segment_t* stub_ptr_segment_q(const void* p) { static mi_segment_t QS; return &QS; }
+void _mi_abandoned_reclaim_all(mi_heap_t* heap, mi_segments_tld_t* tld) { }
+void _mi_abandoned_collect(mi_heap_t* heap, bool force, mi_segments_tld_t* tld) { }
+void _mi_arenas_collect(bool force_purge) { }
+void mi_stats_merge(void) mi_attr_noexcept { }
+void stub_collect_retired2(mi_heap_t* heap, bool force) { }
+void stub_delayed_free_all2(mi_heap_t* h) { CHECK(h == &A, "this heap"); }
+void h_heap_collect(void) {
+  make_heaps();
+  { int c = PST; for (int i = 0; i < NP; i++) { pst[i] = (uint8_t)(c % 3); c /= 3; } }
+  size_t expect_free = 0, expect_live = 0;
+  for (int i = 0; i < NP; i++) {
+    PA[i].xthread_free = (uintptr_t)MI_NO_DELAYED_FREE;
+    if (pst[i] == 0) { PA[i].used = 0; expect_free |= (size_t)1 << i; }
+    else if (pst[i] == 1) { PA[i].used = 2; expect_live |= (size_t)1 << i; }
+    else { PA[i].used = 1; RB[i].next = 0; PA[i].xthread_free = (uintptr_t)&RB[i] | MI_NO_DELAYED_FREE; expect_free |= (size_t)1 << i; }
+  }
+  mi_heap_collect_ex(&A, CMODE == 0 ? MI_NORMAL : CMODE == 1 ? MI_FORCE : MI_ABANDON);
+  CHECK(freed_mask2 == expect_free, "C08/C11: exactly the pages whose blocks were all freed (by whichever thread) are released");
+  CHECK(aband_mask == (CMODE == 2 ? expect_live : 0), "C09: pages with live blocks are abandoned exactly when the thread exits, otherwise kept");
+  size_t nb = check_queue(&A, &A.pages[BIN], false), nf = check_queue(&A, &A.pages[MI_BIN_FULL], true);
+  size_t live = (size_t)__builtin_popcountll(expect_live);
+  CHECK(nb + nf == (CMODE == 2 ? 0 : live) && A.page_count == (CMODE == 2 ? 0 : live), "C08: afterwards the heap holds exactly its pages with live blocks (none at thread exit)");
+  for (int i = 0; i < NP; i++) if (pst[i] == 1 && CMODE != 2) CHECK(PA[i].used == 2 && mi_page_heap(&PA[i]) == &A && (in_queue(&A.pages[BIN], &PA[i]) || in_queue(&A.pages[MI_BIN_FULL], &PA[i])), "a page with live blocks is untouched");
+  mi_page_t* d = A.pages_free_direct[_mi_wsize_from_size(QBS)];
+  CHECK(d == (A.pages[BIN].first != NULL ? A.pages[BIN].first : (mi_page_t*)&_mi_page_empty), "C01: no stale direct pointer to a released page");
+  WITNESS("end");
+}
+#endif
+
 #ifdef HARNESS_h_find_free
 /* C01/C08: the page search of the allocation slow path (mi_find_free_page -> mi_page_queue_find_free_ex): the page it returns belongs
    to the heap, is of the requested size class, has a block on its free list and sits at the front of its size queue; a page is
